@@ -148,6 +148,28 @@ func runC08Round(dir string, g *rand.Rand, creators, nplugins, perCreator, faili
 			}
 		}(w)
 	}
+	// lifecycle events need no sync block: two goroutines relay StartContainer events meanwhile
+	evStop := make(chan struct{})
+	var ewg sync.WaitGroup
+	for e := 0; e < 2; e++ {
+		ewg.Add(1)
+		go func(e int) {
+			defer ewg.Done()
+			for i := 0; ; i++ {
+				select {
+				case <-evStop:
+					return
+				default:
+				}
+				id := fmt.Sprintf("%s-ev%d-%d", tag, e, i)
+				rt.A.StartContainer(context.Background(), &api.StateChangeEvent{Pod: pod, Container: &api.Container{Id: id, PodSandboxId: pod.Id}})
+				if i%16 == 0 {
+					time.Sleep(50 * time.Microsecond)
+				}
+			}
+		}(e)
+	}
+	stopEvents := func() { close(evStop); ewg.Wait() }
 	delays := make([]time.Duration, nplugins)
 	for i := range delays {
 		delays[i] = time.Duration(g.IntN(perCreator*300)) * time.Microsecond
@@ -167,6 +189,7 @@ func runC08Round(dir string, g *rand.Rand, creators, nplugins, perCreator, faili
 	go func() { cwg.Wait(); pwg.Wait(); close(cdone) }()
 	if st := rig.Await(cdone, 30*time.Second, 120*time.Second); st == "hang" {
 		res.Violate("C08/hang/creation-or-registration", "creators or plugin starts did not finish; goroutines:\n"+nriStacks(), what)
+		close(evStop)
 		return
 	}
 	if e := createErr.Load(); e != nil {
@@ -176,11 +199,13 @@ func runC08Round(dir string, g *rand.Rand, creators, nplugins, perCreator, faili
 	for _, cp := range plugins {
 		if st := rig.Await(cp.p.Synced, 5*time.Second, 30*time.Second); st == "hang" {
 			res.Violate("C08/registration-stuck", fmt.Sprintf("plugin %d was not synchronized although no sync block is held any more; goroutines:\n%s", cp.pos, nriStacks()), what)
+			close(evStop)
 			return
 		} else if st == "slow" {
 			res.SlowOne()
 		}
 	}
+	stopEvents()
 	// fence: everybody registered must receive it as a creation
 	fence := tag + "-fence"
 	deadline := time.Now().Add(30 * time.Second)
